@@ -1,5 +1,5 @@
 (* One entry point for the harness: request (list Z) -> reply (list Z). *)
-From JP Require Import Base.Json Extract.Wire Extract.WireAst Model.Slice Spec.Slice Model.Ast Model.Eval Spec.Sem Spec.Compare Model.Tokens Model.Lex Model.PyFloat Model.Parse Model.Api Spec.Rfc9535Grammar Spec.Types Spec.StringLit Model.Position Spec.Position Model.Serialize Spec.NormPath Model.History Model.Descent Model.NdVisit Model.NdEval Spec.Nondet Spec.NondetQ Spec.IRegexp Model.MapRe Spec.Printable.
+From JP Require Import Base.Json Extract.Wire Extract.WireAst Model.Slice Spec.Slice Model.Ast Model.Eval Spec.Sem Spec.Compare Model.Tokens Model.Lex Model.PyFloat Model.Parse Model.Api Spec.Rfc9535Grammar Spec.BuiltinGrammar Spec.Types Spec.StringLit Model.Position Spec.Position Model.Serialize Spec.NormPath Model.History Model.Descent Model.NdVisit Model.NdEval Spec.Nondet Spec.NondetQ Spec.IRegexp Model.MapRe Spec.Printable.
 
 Definition iota_json (len : Z) : list json := map (fun k => JNum (NInt (Z.of_nat k))) (seq 0 (Z.to_nat len)).
 Definition enc_sel (r : list (Z * json)) : list Z := enc_list (fun p => fst p :: enc_json (snd p)) r.
@@ -226,6 +226,10 @@ Definition op_nd_results (r : list Z) : list Z :=
   match dec_json r3 with Some (v, _) => enc_list (enc_list (fun n => enc_loc (fst n))) (nd_results rg (rx_lookup t) q v)
   | None => bad_request end | None => bad_request end | None => bad_request end | None => bad_request end.
 
+(* [121; text] -> is the text in the grammar with well-typed calls of the built-in functions? *)
+Definition op_in_bf (r : list Z) : list Z :=
+  match dec_str r with Some (q, _) => enc_bool (in_bf q) | None => bad_request end.
+
 (* [15; pattern] -> map_re(pattern) *)
 Definition op_map_re (r : list Z) : list Z :=
   match dec_str r with Some (p, _) => enc_str (m_map_re p) | None => bad_request end.
@@ -253,6 +257,7 @@ Definition dispatch (req : list Z) : list Z :=
   | 10 :: r => op_nd_visit r
   | 23 :: r => op_find_nd r
   | 120 :: r => op_nd_results r
+  | 121 :: r => op_in_bf r
   | 11 :: r => op_graph r
   | 12 :: r => op_history r
   | 15 :: r => op_map_re r
